@@ -115,7 +115,7 @@ func (e *Exec) strSlice(s Str, lo, hi int) Str {
 // ---------- slices ----------
 
 func (e *Exec) sliceOp(fr *frame, in *ssa.Slice) Value {
-	x := fr.get(in.X)
+	x := fr.use(in.X)
 	lo, hi, max := -1, -1, -1
 	if in.Low != nil {
 		lo = e.concInt(fr.get(in.Low), "slice low")
@@ -199,11 +199,16 @@ func (e *Exec) idx(v Value, n int) int {
 }
 
 func (e *Exec) indexAddr(fr *frame, in *ssa.IndexAddr) Value {
-	x := fr.get(in.X)
+	x := fr.use(in.X)
 	switch v := x.(type) {
 	case Slice:
 		if v.Abs != nil {
-			e.unsupported("address of abstract JSON byte")
+			i := fr.get(in.Index).(*T)
+			if !i.IsConst() || i.Val != 0 {
+				e.unsupported("address of abstract JSON byte other than the first")
+			}
+			fb := e.jFirstByte(e.textValue(v))
+			return Ptr{Obj: e.newObj(types.Typ[types.Uint8], fb, "json.firstbyte")}
 		}
 		i := e.idx(fr.get(in.Index), v.Len)
 		return Ptr{Obj: v.Obj, Path: []int{v.Off + i}}
@@ -220,14 +225,43 @@ func (e *Exec) indexAddr(fr *frame, in *ssa.IndexAddr) Value {
 	panic(fmt.Sprintf("indexaddr of %T", x))
 }
 
+// selectScalar reads elems[i] for a symbolic i as an ite-chain (no fork except the bounds check).
+func (e *Exec) selectScalar(i *T, n int, get func(k int) Value) (Value, bool) {
+	if i.IsConst() || n == 0 || n > 64 {
+		return nil, false
+	}
+	var elems []*T
+	for k := 0; k < n; k++ {
+		t, ok := get(k).(*T)
+		if !ok {
+			return nil, false
+		}
+		elems = append(elems, t)
+	}
+	if !e.Branch(sym.ULt(i, sym.BVC(i.S.W, uint64(n)))) {
+		e.rtPanic("index out of range (symbolic)")
+	}
+	res := elems[n-1]
+	for k := n - 2; k >= 0; k-- {
+		res = sym.Ite(sym.Eq(i, sym.BVC(i.S.W, uint64(k))), elems[k], res)
+	}
+	return res, true
+}
+
 func (e *Exec) index(fr *frame, in *ssa.Index) Value {
 	x := fr.get(in.X)
 	switch v := x.(type) {
 	case *Array:
+		if r, ok := e.selectScalar(fr.get(in.Index).(*T), len(v.E), func(k int) Value { return v.E[k] }); ok {
+			return r
+		}
 		return v.E[e.idx(fr.get(in.Index), len(v.E))]
 	case Str:
 		if v.Op != nil {
 			e.unsupported("indexing opaque string")
+		}
+		if r, ok := e.selectScalar(fr.get(in.Index).(*T), v.Len(), func(k int) Value { return v.Byte(k) }); ok {
+			return r
 		}
 		return v.Byte(e.idx(fr.get(in.Index), v.Len()))
 	}
@@ -349,6 +383,7 @@ func (e *Exec) mapUpdate(mr MapRef, k, v Value) {
 		e.rtPanic("assignment to entry in nil map")
 	}
 	e.noteMapWrite(mr.M)
+	e.subGuard("map write")
 	if mr.M.Frozen && !e.initMode {
 		e.unsupported("write to frozen package map")
 	}
@@ -397,10 +432,13 @@ func (e *Exec) mapLen(mr MapRef) int {
 }
 
 func (e *Exec) lookup(fr *frame, in *ssa.Lookup) Value {
-	x := fr.get(in.X)
+	x := fr.use(in.X)
 	if s, ok := x.(Str); ok {
 		if s.Op != nil {
 			e.unsupported("indexing opaque string")
+		}
+		if r, ok := e.selectScalar(fr.get(in.Index).(*T), s.Len(), func(k int) Value { return s.Byte(k) }); ok {
+			return r
 		}
 		return s.Byte(e.idx(fr.get(in.Index), s.Len()))
 	}
